@@ -39,7 +39,8 @@ func goTool() string {
 
 func toolEnv() []string {
 	env := os.Environ()
-	env = append(env, "GOFLAGS=-mod=mod", "GOPROXY=off", "GOSUMDB=off", "GOTOOLCHAIN=local")
+	// readonly: building the generator must never touch go.mod / go.sum of the tree under test
+	env = append(env, "GOFLAGS=-mod=readonly", "GOPROXY=off", "GOSUMDB=off", "GOTOOLCHAIN=local")
 	return env
 }
 
